@@ -237,6 +237,27 @@ func (rt *runtime) panicRangeError(argumentList ...interface{}) *exception {
 	}
 }
 
+// thrownValueText renders an uncaught thrown value as the text of the error handed to
+// the Go caller. The conversion runs script code (toString, valueOf) that can throw
+// again; that second exception is reported in the text instead of escaping as a Go panic.
+func thrownValueText(value Value) (text string) {
+	defer func() {
+		if caught := recover(); caught != nil {
+			switch caught.(type) {
+			case *exception, Value, ottoError, *Error:
+				class := "value"
+				if obj := value.object(); obj != nil {
+					class = obj.class
+				}
+				text = "uncaught exception: " + class + " that cannot be converted to a string"
+			default:
+				panic(caught)
+			}
+		}
+	}()
+	return value.string()
+}
+
 func catchPanic(function func()) (err error) {
 	defer func() {
 		if caught := recover(); caught != nil {
@@ -257,7 +278,7 @@ func catchPanic(function func()) (err error) {
 						return
 					}
 				}
-				err = errors.New(caught.string())
+				err = errors.New(thrownValueText(caught))
 				return
 			}
 			panic(caught)
